@@ -203,3 +203,70 @@ Example C14_durable_nonvacuous :
   map fst tr = migration_micro bs /\
   Commit.recover (Commit.run true (Commit.init [] 0) tr) = [1; 2; 3; 4].
 Proof. vm_compute. split; reflexivity. Qed.
+
+(* ---- "the legacy file itself is left untouched": what PeeweeStorage.__init__ does to the file ----
+   Model/PeeweeOpen.v: the constructor as an I/O script (INIT_SCRIPT) over the process-wide
+   handle (hstate: never initialised / closed on a file / open on a file) and an abstract file
+   system (file label -> schema objects); auto_migrate as AM_SCRIPT; every statement that
+   reaches SQLite is an effect token carrying its file.  Tie B re-reads the script, the
+   pragmas of the handle's declaration, auto_migrate's body and the table declarations from
+   peewee.py on every run (Bridge/BridgePeeweeOpen.v).
+   Vocabulary: pw_open_io fs h f = (world after PeeweeStorage(.., filepath = f), exception?);
+   writes tr = the tokens other than the bucket-list read; current_schema s = both tables, their
+   three indexes and bucketmodel.datastr are among the objects of s. *)
+From AwVerif Require Import Model.PeeweeOpen Proofs.PeeweeOpenProofs.
+
+(* The handle is (re)initialised with the requested file on EVERY construction: for every
+   state an earlier store of the process left it in, the constructor returns normally with
+   the handle open on f, its one read (bucket_keys refresh; the migration's buckets() /
+   get_events() go through the same handle) and all its writes go to f, no other file changes. *)
+Theorem C14_open_is_unconditional : forall fs h f,
+  let '(w, r) := pw_open_io fs h f in
+  r = Ok tt /\ w_h w = HOpen f /\ reads (w_tr w) = [ESelectBuckets f] /\
+  (forall e, In e (w_tr w) -> effect_file e = f) /\ (forall g, g <> f -> w_fs w g = fs g).
+Proof. exact open_is_unconditional. Qed.
+Print Assumptions C14_open_is_unconditional.
+
+(* A file that already has the current schema is not written: the only statement that
+   reaches any file is the read of the bucket list of f, and the file system is unchanged. *)
+Theorem C14_open_current_schema_writes_nothing : forall fs h f s,
+  fs f = Some s -> current_schema s = true ->
+  let '(w, r) := pw_open_io fs h f in
+  r = Ok tt /\ w_tr w = [ESelectBuckets f] /\ writes (w_tr w) = [] /\ writes_to f (w_tr w) = [] /\
+  (forall g, w_fs w g = fs g).
+Proof. exact open_current_schema_writes_nothing. Qed.
+Print Assumptions C14_open_current_schema_writes_nothing.
+
+(* Sensitivity (a variant that is NOT the code): the same statements under
+   `if self.db.is_closed():` leave a handle that is open on another file g where it is, and
+   the construction for f reads g. *)
+Theorem C14_open_guarded_variant_reads_stale_file : forall fs g f s,
+  fs g = Some s -> has s (STable N_BUCKETMODEL) = true ->
+  let '(w, r) := run_osteps DB_PRAGMAS AM_SCRIPT f GUARDED_SCRIPT (mkW fs (HOpen g) []) in
+  r = Ok tt /\ w_h w = HOpen g /\ w_tr w = [ESelectBuckets g].
+Proof. exact guarded_open_reads_stale_file. Qed.
+Print Assumptions C14_open_guarded_variant_reads_stale_file.
+
+(* non-vacuity: file 7 has the current schema (and an extra table), file 8 is a pre-datastr
+   legacy file, file 9 does not exist; the handle was left open on 8 *)
+Definition ex_fs : fsys := fun g =>
+  if g =? 7 then Some (STable [120] :: CURRENT_OBJECTS)
+  else if g =? 8 then Some (removelast CURRENT_OBJECTS)
+  else None.
+
+Example C14_open_nonvacuous :
+  current_schema (STable [120] :: CURRENT_OBJECTS) = true /\
+  current_schema (removelast CURRENT_OBJECTS) = false /\
+  (let '(w, r) := pw_open_io ex_fs (HOpen 8) 7 in
+   r = Ok tt /\ w_h w = HOpen 7 /\ w_tr w = [ESelectBuckets 7]) /\
+  (* the clause does NOT hold for an older schema: auto_migrate adds the column (recorded in
+     notes/agents/C14.md since round 1; read at content level) *)
+  (let '(w, r) := pw_open_io ex_fs HDeferred 8 in
+   r = Ok tt /\ w_tr w = [EAddColumn 8 N_BUCKETMODEL N_DATASTR; ESelectBuckets 8]) /\
+  (* a missing file is created with both tables and the three indexes *)
+  (let '(w, r) := pw_open_io ex_fs (HClosed 7) 9 in
+   r = Ok tt /\ length (writes (w_tr w)) = 6%nat /\ current_schema (fs_schema (w_fs w) 9) = true) /\
+  (* a pragma in the handle's declaration reaches the file on both connects *)
+  (let '(w, r) := run_osteps [([106], [119])] AM_SCRIPT 7 INIT_SCRIPT (mkW ex_fs HDeferred []) in
+   r = Ok tt /\ w_tr w = [EPragma 7 [106] [119]; EPragma 7 [106] [119]; ESelectBuckets 7]).
+Proof. vm_compute. repeat split; reflexivity. Qed.
